@@ -43,6 +43,8 @@ Request:
     of the arguments' var_contexts are numbered in order (`labelT` from 0), then the constructor runs
     -> {"next":n,"args":[TVdict..],"res":TVdict|null,"steps":[{"w":[..],"next":n}|{"e":..}..],"fresh":bool}
        `fresh`: no object of the new var_context is an object of an argument (conclusion of `composeInitT_result_fresh`)
+    with "k":"combine": `Combine.__init__` lines 300-302 (`combineInitT`)
+    -> {"next":n,"args":[TVdict..],"comb":TV (the tuple var_context["combine"]),"next1":n,"fresh":bool}
 `nk` (optional, default false): `Compose` honours its `name` keyword (notes/C14_defect_2.patch). -/
 open Lean Lena.Drv Lena.C14 Lena.C14.Tok
 
@@ -387,6 +389,14 @@ def handle (j : Json) : Json :=
             match labelT acc.2 (.dict v.varCtx) with
             | (.dict vt vc, n) => (acc.1 ++ [(vt, vc)], n)
             | _ => acc) ([], 0)
+        if (str? (getD j "k")).getD "compose" == "combine" then
+          -- `Combine.__init__`, lines 300-302, on identities (`combineInitT`)
+          let (comb, n1) := combineInitT next vars
+          let argToks := vars.flatMap (fun w => tokens (.dict w.1 w.2))
+          Json.mkObj [("next", ofNat next), ("args", ofList (fun w => ofTV (.dict w.1 w.2)) vars),
+                      ("comb", ofTV comb), ("next1", ofNat n1),
+                      ("fresh", Json.bool ((tokens comb).all (fun t => !argToks.contains t && next ≤ t)))]
+        else
         match composeInitT names fx next vars with
         | none => err "ctor: no arguments"
         | some init =>
